@@ -538,7 +538,89 @@ def run(ctx):
     c03.chunking(ctx, prog, A)
     collect_rules(ctx, prog)
     dummy_table(ctx, prog)
+    code_length_bound(ctx, prog)
     block_header(ctx, prog)
     witnesses(ctx, prog)
     c15.table_rule(ctx, prog, pfx='C02')
     c03.writer_order(ctx, prog, A)
+
+
+def _loop_ub(f, P, e, at_block, memo=None, depth=0):
+    """upper bound of an unsigned loop-carried value at the head of `at_block`: constants, or what a guard that every
+    path to the block takes compares the value with (recursively); BIG when nothing bounds it"""
+    BIG = 1 << 62
+    memo = memo if memo is not None else {}
+    e = strip_casts(e)
+    if e[0] == 'const':
+        return e[1]
+    if depth > 12:
+        return BIG
+    if e[0] == 'trunc' or e[0] == 'ext':
+        return _loop_ub(f, P, e[-1], at_block, memo, depth + 1)
+    key = (e[0], e[1] if e[0] == 'phi' else id(e), at_block)
+    if key in memo:
+        return memo[key]
+    memo[key] = -1          # in progress: neutral for the max over phi inputs
+    best = BIG
+    for blk, cond, pol in rules.guards(f, P, at_block):
+        core, p2 = peel_cond(cond)
+        cn = cmp_norm(strip_casts(core))
+        if cn is None:
+            continue
+        pred, x, y = cn
+        eff = pol == p2
+        if strip_casts(x) != e:
+            continue
+        ub_y = _loop_ub(f, P, y, blk.name, memo, depth + 1)
+        if ub_y < 0:
+            continue
+        if pred in ('ule', 'sle') and eff:
+            best = min(best, ub_y)
+        elif pred in ('ult', 'slt') and eff:
+            best = min(best, ub_y - 1)
+        elif pred in ('ugt', 'sgt') and not eff:
+            best = min(best, ub_y)
+        elif pred in ('uge', 'sge') and not eff:
+            best = min(best, ub_y - 1)
+    if best == BIG and e[0] == 'phi':
+        m = -1
+        for v, src in e[2].extra['incoming']:
+            u = _loop_ub(f, P, P.expr(v), src, memo, depth + 1)
+            m = max(m, u)
+        best = m if m >= 0 else BIG
+    memo[key] = best
+    return best
+
+
+def code_length_bound(ctx, prog):
+    """no prefix code longer than 20 bits is ever put into a table: every length assign_codes() stores is a loop
+    counter bounded (through the loop guards) by MAX_CODE_LENGTH, which is 20; the clustering lengths of
+    make_code_lengths() (up to 30) never reach transmit() because assign_codes() rewrites every table that is used"""
+    f = prog.func('encode', 'assign_codes')
+    P = Prov(prog, f)
+    lp = [n for t, n in f.params][1]
+    sites = []
+    for i in f.insns():
+        if i.op != 'store' or i.extra.get('vty') != ('int', 8):
+            continue
+        a = P.addr(i.ops[1])
+        if a[1][0] == 'V' and strip_casts(a[1][1])[0] == 'param' and strip_casts(a[1][1])[2] == lp:
+            sites.append(i)
+    ctx.floor('C02 assign_codes(): stores into the length table', len(sites), 2)
+    bad = []
+    for i in sites:
+        u = _loop_ub(f, P, P.expr(i.ops[0]), i.block.name)
+        if not (0 <= u <= 20):
+            bad.append('%s: length stored is only known to be <= %s' % (f.loc(i), u if u < (1 << 60) else 'unbounded'))
+    ctx.ob('C02.codelen', 'assign_codes(): every code length stored is bounded by the loop guards by 20 (no prefix code '
+           'longer than 20 bits, the format\'s and the decoder\'s limit)', f.loc(sites[0]), not bad, '; '.join(bad))
+    # every table generate_prefix_code() leaves for transmit() went through assign_codes()
+    g = prog.func('encode', 'generate_prefix_code')
+    Pg = Prov(prog, g)
+    ac = [c for c in g.calls('assign_codes')]
+    mk = [c for c in g.calls('make_code_lengths')]
+    ok = bool(ac) and all(not cfg.reaches(g, a.block.name, m.block.name) or a.block.name == m.block.name
+                          for a in ac for m in mk)
+    ctx.ob('C02.codelen', 'generate_prefix_code(): the final tables are written by assign_codes(), after the last '
+           'clustering pass (whose lengths may exceed 20)', g.loc(ac[0]) if ac else g.loc(), ok,
+           'assign_codes at %s, make_code_lengths at %s' % ([c.line for c in ac], [c.line for c in mk]))
